@@ -258,12 +258,12 @@ SUBCHECKS = [
              rule="94 -> 2020 -> 94 and 2020 -> 94 -> 2020: ground position within 0.3 mm, height within 0.2 mm"),
     SubCheck("equals_definition", check_definition, strategy=mga_cases(), nontrivial=_nt, classes=_classes,
              quick=2000, thorough=150000, shards_quick=4, shards_thorough=16, seq_groups=G_ALL,
-             rule="each direction == stepwise composition with the library's own steps (exact), natural zone, no-height rule; "
+             fresh=(8, 64, 3), rule="each direction == stepwise composition with the library's own steps (exact), natural zone, no-height rule; "
                   "and == independent reference pipeline (exact TM, closed-form Cartesian, reference Helmert) within 0.03 / 0.2 mm"),
     SubCheck("equals_definition_whole_utm", check_definition_wide, strategy=utm_south_cases(), nontrivial=_nt, classes=_classes,
              quick=1500, thorough=100000, shards_quick=3, shards_thorough=12,
              rule="the same on the whole southern UTM domain of C02 (zones 1..60, |lon - CM| <= 30 deg)"),
     SubCheck("covariance", check_covariance, strategy=mga_cases(with_vcv=True), nontrivial=_nt, classes=_classes,
              quick=1500, thorough=100000, shards_quick=3, shards_thorough=12, seq_groups=G_ALL + [["vcv"]],
-             rule="local covariance out = R2^T (S R1 V R1^T S^T + J Sigma J^T) R2 from the harness' own matrices (1e-9), symmetric, PSD"),
+             fresh=(8, 64, 3), rule="local covariance out = R2^T (S R1 V R1^T S^T + J Sigma J^T) R2 from the harness' own matrices (1e-9), symmetric, PSD"),
 ]
